@@ -29,6 +29,12 @@ CFG = {
         "Leptos.Store.C16_option_map_woken_by_ancestor_write",
         "Leptos.Store.C16_iter_unkeyed_misses_ancestor_witness",
         "Leptos.Store.C16_subscription_order_below_written_field",
+        "Leptos.Store.C16_erasure_transparent_set",
+        "Leptos.Store.C16_erasure_transparent_patch",
+        "Leptos.Store.C16_erasure_transparent_reader",
+        "Leptos.Store.C16_root_handle_write_misses_descendants_witness",
+        "Leptos.Store.C16_enum_variant_fields_share_segment_witness",
+        "Leptos.Store.C16_patch_after_skipped_field_witness",
         "Leptos.Store.mem_notifySet",
         "Leptos.Store.mem_trackSet",
         "Leptos.Store.updateEntries_wf",
@@ -52,14 +58,14 @@ CFG = {
     "trivial_tags": ["plain"],
     "rule": "a case is one history on one real Store<Root> of the fixed #[derive(Store, Patch)] family (nested structs to depth 3, "
             "Option fields at depth 1 and 2, Vec field, keyed Vec of structs at depth 1 and 2, a Box field behind DerefedField with a "
-            "custom #[patch] closure). Readers are Effects on the controlled executor or ImmediateEffects (wake order), and read in every "
+            "custom #[patch] closure; shapes with attributes: #[store(skip)] first / in the middle / last, a tuple struct, an enum with a struct-like, a tuple and a unit variant). Readers are Effects on the controlled executor or ImmediateEffects (wake order), and read in every "
             "public way: .get / .read / .with / .track+read_untracked, OptionStoreExt::map / invert / unwrap, Field and ArcField handles "
             "(the accessor erased at any position of the chain when the reader is created), DerefedField, AtIndex, AtKeyed, iteration "
-            "(for over a keyed field, iter_unkeyed) reading every item. Ops: .set/.update/.write(), patch, keyed push/remove/swap/reverse, "
+            "(for over a keyed field, iter_unkeyed) reading every item, enum variant_field() accessors (held, or called inside the reader). Ops: .set/.update/.write() and patch, each also through a Field / ArcField handle made of the accessor at any position of the chain, keyed push/remove/swap/reverse, "
             "poll/idle. Generated: every (write chain, read chain) pair of the family's chains with a random way of reading (all pairs when "
             "n >= 2*pairs, else a seeded sample of n/2), then seeded histories in six flavours (plain fields; keyed starting with <=1 key; "
             "keyed starting with >=2 keys; unkeyed list; mixed; option cycles: both Option fields go Some->None->Some through set and patch "
-            "at every ancestor level under every reader kind). Observable per op: the woken effect ids and the run log (reader id : value "
+            "at every ancestor level under every reader kind; attribute shapes: every field of one shape watched, patches at the shape / its parent / the root that change one or two fields). Observable per op: the woken effect ids and the run log (reader id : value "
             "seen). distinct = distinct op list; every case writes at least once",
     "trusted": [
         "reactive_graph Effect / ImmediateEffect / ArcTrigger (modelled: ordered SubscriberSet taken on notify, woken flag, run = clear sources + retrack)",
@@ -71,7 +77,7 @@ CFG = {
                  "AtIndex::{writer,track}", "KeyedSubfield::{writer,track_field,update_keys,into_iter}", "KeyedSubfieldWriteGuard::drop",
                  "AtKeyed::{path,reader,writer}", "FieldKeys::{new,update,next_key}", "KeyMap::with_field_keys",
                  "Patch::patch / PatchField for primitives, Option, Vec and #[derive(Patch)] structs", "OptionStoreExt::unwrap"],
-    "assumptions": ["enum stores (variant accessors) are not exercised; a Subfield built on an erased handle of a keyed item (frozen path) is not exercised",
+    "assumptions": ["handles are created at the operation that uses them (a long-lived handle of a keyed item, whose path is frozen at creation, is not exercised); the bool variant accessors of enums and KeyedSubfield -> Field (no From impl) are not exercised",
                     "single thread; no nested keyed collections; key function = first field of the item"],
     "manifest": {
         "category": "proof",
